@@ -471,6 +471,7 @@ type Contract struct {
 	ModNothing bool
 	FrameTag string
 	Updates  []GhostUpdate // ghost assignments executed at every return (model fields only)
+	Claims   []Clause      // postconditions checked on the body but never assumed by callers (used for clauses that are known findings)
 	Grants   []Clause      // interface methods: history tokens assumed at call sites, not checked on implementations
 	Forbids  []Clause      // interface methods: functions no implementation may reach (Src = name patterns)
 	Iterator bool          // the function calls its callback argument zero or more times (loop at the call site)
@@ -574,7 +575,7 @@ func ParseContractFile(path, pkg string) (*ContractFile, error) {
 		body := strings.TrimPrefix(t, "//@")
 		lines = append(lines, ln{body, i + 1})
 	}
-	keywords := []string{"grants", "forbids", "footprint", "iterator", "count", "update", "func", "assume", "interface", "method", "requires", "ensures", "modifies", "invariant", "safety", "ghost", "model", "repr", "axiom", "implements", "lemma", "yields", "property", "noinline", "const", "expands", "inline"}
+	keywords := []string{"claims", "grants", "forbids", "footprint", "iterator", "count", "update", "func", "assume", "interface", "method", "requires", "ensures", "modifies", "invariant", "safety", "ghost", "model", "repr", "axiom", "implements", "lemma", "yields", "property", "noinline", "const", "expands", "inline"}
 	isKw := func(s string) bool {
 		f := strings.Fields(s)
 		if len(f) == 0 {
@@ -640,7 +641,7 @@ func ParseContractFile(path, pkg string) (*ContractFile, error) {
 			name, _ := splitTag(rest)
 			cur = &Contract{Pkg: pkg, Target: curIface.Name + "." + name, Invs: map[string][]Clause{}, File: path, Line: l.n}
 			curIface.Methods[name] = cur
-		case "requires", "ensures", "lemma", "yields":
+		case "requires", "ensures", "lemma", "yields", "claims":
 			if cur == nil {
 				return nil, fail(l, fmt.Errorf("%s outside func", kw))
 			}
@@ -655,6 +656,8 @@ func ParseContractFile(path, pkg string) (*ContractFile, error) {
 				cur.Requires = append(cur.Requires, c)
 			case "ensures":
 				cur.Ensures = append(cur.Ensures, c)
+			case "claims":
+				cur.Claims = append(cur.Claims, c)
 			case "lemma":
 				cur.Lemmas = append(cur.Lemmas, c)
 			case "yields":
